@@ -175,7 +175,7 @@ def run_check(pid, tier, opts):
         rc = 1
         # spread the replay budget over the claims; shortest / first cases first
         order = []
-        lists = [vs for _, vs in sorted(by_claim.items())]
+        lists = [sorted(vs, key=lambda t: (len(t[1]['key']), t[0])) for _, vs in sorted(by_claim.items())]
         r = 0
         while len(order) < MAX_REPLAYS and any(r < len(vs) for vs in lists):
             for vs in lists:
